@@ -1,6 +1,7 @@
 import XlModel.Ref
 import XlModel.RefApi
 import XlModel.RefMulti
+import XlModel.RefOpts
 import XlModel.Drv.Util
 namespace XlModel.Drv.C20
 open XlModel XlModel.Ref XlModel.Drv
@@ -100,6 +101,15 @@ def step (w : List String) : String :=
         | .ok key => (match key.stored with | some x => hexS x | none => "?")
         | .error _ => "ERR"
       "P=" ++ k (pathPrepareM ms c) ++ " G=" ++ k (pathGetStringM ms c) ++ " H=" ++ k (pathLinkM ms c)
+    | _, _ => "bad-op"
+  | ["opt", k, h] => match OptKind.ofString k, unhexS h with
+    | some kind, some s => if optAccepts kind s then "A" else "R"
+    | _, _ => "bad-op"
+  | ["cfpair", ha, hb] => match unhexS ha, unhexS hb with
+    | some a, some b => match cfUnsetFinds a b with
+      | some true => "1"
+      | some false => "0"
+      | none => "none"
     | _, _ => "bad-op"
   | ["paths", h] => match unhexS h with
     | some s => String.ofList (pathsOp s)
